@@ -205,7 +205,11 @@ class Pipeline(object):
             self._state = PipelineState.running
             self._item_queue.open()
             self._producer_task = asyncio.get_event_loop().create_task(self._run_producer_wrapper())
-            self._unpaused_event.set()
+
+            if self._concurrency:
+                self._unpaused_event.set()
+            else:
+                self._unpaused_event.clear()
 
         while self._state == PipelineState.running:
             yield from self._process_one_worker()
